@@ -109,14 +109,12 @@ Definition ccarry (c : content) (ix : list Z) : res content :=
 
 (* ---- C++ normalisers ---- *)
 (* compact_offsets64(start_at_zero = true) *)
-Fixpoint cumul (acc : Z) (lens : list Z) : list Z :=
-  match lens with [] => [acc] | n :: r => acc :: cumul (acc + n) r end.
 Definition compact_offsets (c : content) : res (list Z) :=
   match c with
   | ListOffset _ o _ => match o with [] => Err EValue | o0 :: _ => Ok (map (fun x => x - o0) o) end
   | ListA _ s e _ =>
       do lens <- mapM (fun i => do a <- get s i; do b <- get e i; if b <? a then Err EValue else Ok (b - a)) (iota (zlen s));
-      Ok (cumul 0 lens)
+      Ok (offsets_from 0 lens)
   | Regular c' size zl => Ok (map (fun i => i * size) (iota (clen c + 1)))
   | _ => Err EValue
   end.
